@@ -71,9 +71,10 @@ Has(d) == d \in Defects
 
 VARIABLES g,       \* shared state of the library, the wrapper, the device and the environment budgets
           stk,     \* thread -> stack of frames
-          words, act, nstim, viol    \* history (observables of LifecycleProps) and the first failing clause
+          words, act, nstim, viol,   \* history (observables of LifecycleProps) and the first failing clause
+          vwhen    \* "T" / "R": had an open_link of attempt >= 2 begun when that clause failed? ("" while viol = "ok")
 
-vars == <<g, stk, words, act, nstim, viol>>
+vars == <<g, stk, words, act, nstim, viol, vwhen>>
 
 F(r, pc, a, b) == [r |-> r, pc |-> pc, a |-> a, b |-> b]
 Top(s) == s[Len(s)]
@@ -104,6 +105,7 @@ Init ==
     /\ act = <<>>
     /\ nstim = [a \in 0..NAtt |-> [close |-> 0, fail |-> 0]]
     /\ viol = "ok"
+    /\ vwhen = ""
 
 \* ----------------------------------------------------------------------------------------------
 \* fan-outs of the public callbacks (the parts that have visible operations)
@@ -492,6 +494,7 @@ Commit(t, r0) ==
     IN /\ g' = r.g
        /\ stk' = [x \in Threads |-> IF x = t THEN r.s ELSE IF x \in r.sp THEN InitStack(x) ELSE stk[x]]
        /\ words' = H.words /\ act' = H.act /\ nstim' = H.nstim /\ viol' = H.viol
+       /\ vwhen' = IF viol = "ok" /\ H.viol # "ok" THEN (IF r.g.next >= 3 THEN "R" ELSE "T") ELSE vwhen
 
 \* ----------------------------------------------------------------------------------------------
 \* thread steps
@@ -642,6 +645,8 @@ NoThreadDies == g.dead = {}
 \* single clauses of HistoryOK / search targets (used to obtain the schedule that exposes ONE code site; the verdict
 \* on the real code always comes from the monitor)
 CloseCallsOK == viol # "CloseOneDisconnected"
+\* enumeration of the clauses the as-is design can violate (reports/C02.md, known findings): Seen is a set of strings
+ViolKey == viol \o "/" \o vwhen
 NoEarlyConnected == viol # "ConnectedBeforeTables"
 NoLeakedSendLock == ~(PreQuiet /\ g.lock # "free" /\ viol = "ok" /\ g.dead = {})
 \* search target (not a clause of C02; used to obtain a schedule that is then run against the real code and judged by
